@@ -19,7 +19,11 @@ Rec == ndJsonDeserialize(IOEnv.TRACE)
 VARIABLE l
 
 Report(e, stage, want, got) ==
-  PrintT(<<"MISMATCH", ToJson([i |-> e.i, case |-> e.case, stage |-> stage, want |-> want, got |-> got])>>)
+  PrintT(<<"MISMATCH", ToJson([i |-> e.i, case |-> e.case, stage |-> stage, want |-> want, got |-> got, known |-> ""])>>)
+\* infos outside Outcomes: `known` names the known deviation of allsorts that gives exactly these infos, if any
+ReportInfos(e, outs) ==
+  PrintT(<<"MISMATCH", ToJson([i |-> e.i, case |-> e.case, stage |-> "infos", want |-> SetToSeq(outs), got |-> e.o.infos,
+                               known |-> KnownKey(e.a.prog, e.a.in, outs, e.o.infos)])>>)
 
 JudgePos(e, dir, raw) ==
   LET want == Canon(e.o.infos, e.a.prog.adv, dir)
@@ -31,7 +35,7 @@ Judge(e) ==
   IF \E o \in outs : ~Modelled(o)
   THEN PrintT(<<"UNMODELLED", ToJson([i |-> e.i, why |-> "program leaves the modelled fragment"])>>)
   ELSE IF e.o.err # "" THEN Report(e, "error", "Ok", e.o.err)
-  ELSE IF e.o.infos \notin outs THEN Report(e, "infos", SetToSeq(outs), e.o.infos)
+  ELSE IF e.o.infos \notin outs THEN ReportInfos(e, outs)
   ELSE IF ~PosWF(e.o.infos)
   THEN PrintT(<<"UNMODELLED", ToJson([i |-> e.i, why |-> "attachment structure outside Position"])>>)
   ELSE /\ JudgePos(e, "ltr", e.o.ltr)
